@@ -591,3 +591,24 @@ def run_batches(ctx, scripts, tag, build_s):
     if sum(s["harness_panics"] for s in summs) or sum(s["connect_failed"] for s in summs) > len(scripts) // 10:
         raise ToolError("harness trouble: %s" % summs)
     return lines, summs
+
+
+def discarded_runs(ctx, lines):
+    """scenarios whose driver was starved (> 1.5 s): not judged at quiescence; listed with the worst lateness"""
+    out, h = {}, {}
+    for ln in lines:
+        if '"e":"reset"' in ln:
+            h = json.loads(ln)
+        elif '"e":"quiesce"' in ln and '"stable":false' in ln:
+            d = json.loads(ln)
+            out[h.get("sc")] = max(out.get(h.get("sc"), 0), d.get("late", 0))
+    res = [{"scenario": k, "late_ms": v, "transport": getattr(ctx, "scripts_by_id", {}).get(k, {}).get("cfg", {}).get("transport", "tcp")}
+           for k, v in sorted(out.items(), key=lambda kv: -kv[1])]
+    if res:
+        worst = res[0]
+        ctx.notes.append("%d scenario(s) discarded (driver starved, not judged at quiescence); worst: %s %d ms" % (len(res), worst["scenario"], worst["late_ms"]))
+        if worst["late_ms"] > 20000:
+            save_replay(ctx, "discarded_%s" % re.sub(r"[^A-Za-z0-9]", "_", str(worst["scenario"])),
+                        {"property": ctx.pid, "note": "run discarded: scenario driver starved for %d ms" % worst["late_ms"],
+                         "script": getattr(ctx, "scripts_by_id", {}).get(worst["scenario"])})
+    return res[:20]
